@@ -87,6 +87,9 @@ def run(ctx):
                       "(names order = list order)", floor=2)
     ctx.rule("R18.i", "the notification of a mutation carries the state after it: in ListProxy._trigger the old value is a copy taken before the yield, and the new value handed to "
                       "_trigger_event is read from the Parameter after the yield (a mutator may rebind names/_objects, so a container reference taken before the yield is stale)", floor=1)
+    ctx.rule("R18.j", "ListProxy model: every mutator (append, insert, extend, pop by index/key, remove -- also with an equal-but-not-identical argument --, clear, item and key assignment, "
+                      "update) interpreted abstractly from an unnamed and a named store of abstract objects agrees with list/dict semantics: list view = _objects = names.values() (identity "
+                      "and order), keys as specified, pop returns what it removed, a failed operation leaves no trace (33 operations)", floor=1)
     ctx.rule("R18.f", "outside ListProxy and the objects setter, _objects grows only in Selector._ensure_value_is_in_objects, which tests membership against the current objects for every single value", floor=1)
     ctx.not_decided += ["consistency after arbitrary mutation sequences (follows from per-mutator pairing but is not executed)",
                         "list mutators that ListProxy does not override (sort, reverse, __delitem__, +=) -- reported as informational"]
@@ -207,8 +210,9 @@ def run(ctx):
         for st in ast.walk(f.node):
             if isinstance(st, ast.Assign) and any(names_store(t) for t in st.targets):
                 if not isinstance(st.value, ast.DictComp):
-                    raise AnalysisError("R18.c cannot decide: ListProxy.%s rebuilds names with `%s`, which is not a filter of the old names by identity with the removed "
-                                        "object (positional reconstructions are not decidable here, e.g. for negative indices)" % (m, norm(st.value)[:80]))
+                    ctx.info("R18.c", f, st, "ListProxy.%s rebuilds names with `%s`, which is not a filter of the old names by identity with the removed object: "
+                                             "not decided by this structural rule; the ListProxy model (R18.j) decides it" % (m, norm(st.value)[:80]))
+                    found = True
         if not found:
             # names updated by other means (e.g. names.pop(key)) -- acceptable when the removed key is deleted explicitly
             if any(isinstance(c, ast.Call) and isinstance(c.func, ast.Attribute) and names_store(c.func.value) and c.func.attr in ("pop",) for c in ast.walk(f.node)):
@@ -408,3 +412,7 @@ def _rule_g(ctx):
                      key=tg.qualname + "::old-value-not-a-copy")
         else:
             ctx.ok("R18.i", tg, n, "old = copy taken before the yield; new = `%s`, read after it" % norm(new_e))
+
+    # model-level rule, run last
+    from checks import listproxy_model
+    listproxy_model.report(ctx, "R18.j")
